@@ -15,6 +15,17 @@ var cmds = map[string]cmd{}
 
 func register(name string, c cmd) { cmds[name] = c }
 
+// commands whose observations are functions of the case alone (no addresses, clocks, schedules or map iteration orders in them;
+// C18 logs calls in map iteration order and has its own history probe)
+var historyFree = map[string]bool{"C01": true, "C08": true, "C16": true, "C14": true, "C15": true}
+
+func cut(s string, n int) string {
+	if len(s) > n {
+		return s[:n] + "..."
+	}
+	return s
+}
+
 func main() {
 	if len(os.Args) < 2 {
 		names := []string{}
@@ -49,6 +60,30 @@ func main() {
 		os.Remove(progressPath)
 	}
 	rep := c(cfg)
+	// the properties below are laws of every CALL: what a case yields must not depend on what the process did before.  The whole
+	// run is repeated in the same process (same seed, so the same cases), and every observation must come out the same.
+	if rep != nil && historyFree[name] && cfg.Only < 0 && cfg.Mode == "" && os.Getenv("VERIF_NO_RERUN") == "" {
+		cfg2 := *cfg
+		cfg2.Out = ""
+		if rep2 := c(&cfg2); rep2 != nil {
+			n := 0
+			for i := range rep.CaseObs {
+				if i < len(rep2.CaseObs) && i < len(rep.CaseDesc) && rep.CaseObs[i] != rep2.CaseObs[i] && n < 5 {
+					n++
+					rep.violate(i, "depends-on-call-history", rep.CaseDesc[i], fmt.Sprintf("the same case run a second time in the same process (after %d other cases) yields a different observation: first %q, second %q", len(rep.CaseObs), cut(rep.CaseObs[i], 300), cut(rep2.CaseObs[i], 300)))
+				}
+			}
+			for _, v := range rep2.Violations { // whatever only shows the second time round
+				found := false
+				for _, w := range rep.Violations {
+					found = found || (w.Case == v.Case && w.Kind == v.Kind)
+				}
+				if !found {
+					rep.violate(v.Case, v.Kind, v.Input, "(second run of the case in the same process) "+v.Detail)
+				}
+			}
+		}
+	}
 	if progressPath != "" {
 		os.Remove(progressPath)
 	}
